@@ -348,6 +348,9 @@ class C14:
         calls = (rec.get('extra') or {}).get('calls', [])
         nscript = len(ra.get('script') or [])
         ex.stats['oracle_sim'] += 1
+        consumed = nscript - int((rec.get('extra') or {}).get(
+            'script_left', nscript))
+        ex.fault('F6-adversarial-variate-script-steps', max(0, consumed))
         what = t.get('base', 'derived')
         if rec['outcome'] == 'exc' and rec['exc'] == 'SimLiveness':
             ex.add(violation(
